@@ -123,7 +123,7 @@ type c10Op struct {
 	Do   func(c *ucfg.Config, prefix string) // errors are irrelevant (an op that fails changes nothing)
 }
 
-var c10Paths = []string{"a", "a.b", "a.b.c", "l", "l.0", "l.1", "x", "0", "0.x", "1", "r", "o", "o.k", "o.l.0", "b", "b.n", "e", "new"}
+var c10Paths = []string{"a", "a.b", "a.b.c", "a.w", "l", "l.0", "l.1", "l.0.w", "x", "x.w", "0", "0.x", "0.w", "1", "r", "o", "o.k", "o.l.0", "b", "b.n", "b.w", "e", "e.w", "new"}
 
 func buildC10Ops() []c10Op {
 	ps := ucfg.PathSep(".")
@@ -135,7 +135,7 @@ func buildC10Ops() []c10Op {
 			c10Op{"Remove(" + p + ")", func(c *ucfg.Config, pre string) { c.Remove(pre+p, -1, ps) }},
 		)
 	}
-	for _, p := range []string{"a", "a.b", "l", "o", "0", "b", "e"} {
+	for _, p := range []string{"a", "a.b", "l", "l.0", "o", "0", "b", "e", "x"} {
 		p := p
 		ops = append(ops, c10Op{"Child(" + p + ").SetInt(w)", func(c *ucfg.Config, pre string) {
 			if ch, err := c.Child(pre+p, -1, ps); err == nil {
